@@ -19,6 +19,8 @@ type specEnv struct {
 	depth int
 	// callee mode: names are the callee's formal parameters only
 	calleeMode bool
+	// values of captured variables before the call (seen by old() in postconditions applied at a call site)
+	oldVars map[string]Val
 }
 
 func (g *gen) rootFn() *ssa.Function {
@@ -297,6 +299,16 @@ func (g *gen) evalSpec1(env *specEnv, e *SExpr) (Val, error) {
 	case "old":
 		sub := *env
 		sub.st = env.old
+		if len(env.oldVars) > 0 {
+			sub.vars = map[string]Val{}
+			for k, v := range env.vars {
+				sub.vars[k] = v
+			}
+			for k, v := range env.oldVars {
+				sub.vars[k] = v
+			}
+			sub.oldVars = nil
+		}
 		var out Val
 		var err error
 		g.withState(env.old, func() { out, err = g.evalSpec1(&sub, e.Args[0]) })
@@ -819,6 +831,20 @@ func (g *gen) evalCall(env *specEnv, e *SExpr) (Val, error) {
 			t = app("i_val", t)
 		}
 		return boolVal(app("private", t)), nil
+	case "tnode":
+		// tnode(x): x is a node of a parsed and type-checked syntax tree (theory ast-valid)
+		g.declTnode()
+		if args[0].Sort == "Iface" {
+			return boolVal(app("tnode", app("i_val", args[0].T))), nil
+		}
+		return boolVal(app("tnode", args[0].T)), nil
+	case "astlist":
+		// astlist(s): the backing array of slice s is a list of the analysed (immutable) tree
+		g.declareFun("astlist", []string{"Int"}, "Bool")
+		if args[0].Sort == "Slice" {
+			return boolVal(app("astlist", app("s_base", args[0].T))), nil
+		}
+		return boolVal(app("astlist", args[0].T)), nil
 	case "nodeInTree":
 		g.declareFun("private", []string{"Int"}, "Bool")
 		if args[0].Sort == "Iface" {
